@@ -818,6 +818,15 @@ pub mod world {
         Ok(mine)
     }
 
+    /// Is PgCat's endpoint of connection `id` still open (counted at PgCat's end of the wire)?
+    pub fn pgcat_side_open(id: u32) -> bool {
+        let n = NET.lock();
+        match n.conns.get(&id) {
+            Some(c) => (0..2).any(|s| c.owner[s] == Owner::Pgcat && c.open[s]),
+            None => false,
+        }
+    }
+
     /// Number of currently open connections that PgCat initiated to `host`, counted at
     /// PgCat's end of the wire.
     pub fn pgcat_open_conns_to(host: &str) -> usize {
